@@ -40,7 +40,7 @@ def check(tier):
         mc_cfg = "Privileges_mc.cfg" if quick else "Privileges_mc4.cfg"
         mc = pool.submit(lib.tlc, "Privileges", mc_cfg, workers=3 if quick else 6, timeout=1500 if quick else 7200,
                          coverage=not quick, heap="6g")
-        sim_cfg, nsim, depth = ("Privileges_simrq.cfg", 60, 8) if quick else ("Privileges_simr.cfg", 1500, 12)
+        sim_cfg, nsim, depth = ("Privileges_simrq.cfg", 60, 8) if quick else ("Privileges_simr.cfg", 800, 12)
         rs, strs = pc.simulate(sim_cfg, nsim, depth, lib.seed())
         lib.log("[C41] simulate: %d steps %.0fs" % (len(strs), time.time() - t0))
         b = pc.Batch(binp, sc, "c41")
@@ -60,6 +60,7 @@ def check(tier):
             if not relevant(m):
                 s = pc.signature("C39", m)
                 other[s] = other.get(s, 0) + 1
+        forged = pc.forged_selftest(b, mms, kind_of_reload=True) if not quick else None
         r = mc.result()
         lib.tlc_ok(r, "Privileges/" + mc_cfg)
         if not quick and r.coverage_zero():
@@ -79,11 +80,11 @@ def check(tier):
             "evaluations": reloads,
             "distinct_nontrivial": nonempty,
             "rule": "evaluations = persist -> load-into-fresh-engine round trips compared (Persist/Reload steps inside histories + one after every history); non-trivial = the reloaded state holds at least one grant or role edge; %d probe outcomes compared before/after and judged against Allowed" % rows,
-            "exhaustive": {"config": mc_cfg, "depth": r.depth, "tlc_wall_s": round(r.wall, 1), "property": "ReloadIdentity"},
+            "model_check": {"config": mc_cfg, "depth": r.depth, "tlc_wall_s": round(r.wall, 1), "property": "ReloadIdentity"},
             "simulated": {"config": sim_cfg, "histories": srep["extra"]["histories"], "depth": depth, "steps": srep["cases"],
                           "by_action": srep["extra"]["by_action"]},
             "trace_lines_validated": len(b.events), "trace_tlc_wall_s": round(b.tlc_wall, 1),
-            "mismatch_signatures": sigs,
+            "mismatch_signatures": sigs, "forged_trace_selftest": forged,
             "not_this_property": other,
         }, time.time() - t0, violations=len(v.violations),
             assumptions=["a fresh engine = new in-memory provider with the same databases/tables, mysql database enabled, root account added, then LoadData(persisted bytes)",
